@@ -338,9 +338,9 @@ def gen_scenarios(seed, n, steps, profile, role="both", snap=True):
     return load_scenarios(out)
 
 
-def correspond_sendflow(rep, tier, seed, profiles=("flow", "mixed", "reset", "limits")):
-    per = 60 if tier == "quick" else 1500
-    steps = 90 if tier == "quick" else 140
+def correspond_sendflow(rep, tier, seed, profiles=("flow", "bp", "mixed", "bp", "reset", "limits")):
+    per = 50 if tier == "quick" else 1500
+    steps = 100 if tier == "quick" else 140
     all_cases, all_scs, label_hist = [], [], {}
     for pi, prof in enumerate(profiles):
         scs, _ = gen_scenarios(seed * 7919 + pi, per, steps, prof)
